@@ -53,7 +53,7 @@ func (pv *ResponseBatchItem) TagEncodeTTLV(e *ttlv.Encoder, tag int) {
 			e.ByteString(TagUniqueBatchItemID, pv.UniqueBatchItemID)
 		}
 		e.Any(pv.ResultStatus)
-		if pv.ResultStatus != ResultStatusSuccess || pv.ResultReason != 0 {
+		if pv.ResultStatus == ResultStatusOperationFailed || pv.ResultReason != 0 {
 			e.Any(pv.ResultReason)
 		}
 		if pv.ResultMessage != "" {
